@@ -31,6 +31,13 @@ pub const PRELUDE: &str = r#"function show(x, d) {
   for (i = 0; i < keys.length; i++) { if (i) s += ','; s += keys[i] + ':' + show(x[keys[i]], d + 1); }
   return s + '}';
 }
+function mkIt(tag, n, withReturn) {
+  var it = { i: 0 };
+  it[Symbol.iterator] = function () { print(tag + ' @@iterator'); return it; };
+  it.next = function (v) { print(tag + ' next ' + it.i); return it.i < n ? { value: tag + it.i++, done: false } : { value: tag + 'end', done: true }; };
+  if (withReturn) it['return'] = function (v) { print(tag + ' return'); return {}; };
+  return it;
+}
 "#;
 
 #[derive(Clone, Copy, Debug, PartialEq, Eq)]
@@ -158,7 +165,7 @@ impl Opts {
         o.w_closure = 22;
         o.w_loop = 18;
         o.w_eval = 4;
-        o.w_with = 3;
+        o.w_with = 8;
         o.w_generator = 8;
         o.w_tdz = 6;
         o.w_class = 3;
@@ -1205,6 +1212,25 @@ impl<'a> Gen<'a> {
                 self.declare(&y, Kind::Const, Ty::Any);
                 self.label("yield");
             }
+            if generator && self.t.chance(60) {
+                // yield* delegation: to an earlier generator, an array, or an inline generator whose
+                // try/catch/finally observes throw()/return() forwarded from the outer generator
+                let y = self.fresh("y");
+                let inner_gens: Vec<Var> = self.vars().filter(|v| v.func.is_some_and(|f| self.funcs[f].complete && self.funcs[f].generator)).cloned().collect();
+                let target = match self.t.below(4) {
+                    0 if !inner_gens.is_empty() => {
+                        let g = self.t.pick(&inner_gens).clone();
+                        let f = self.funcs[g.func.unwrap()].clone();
+                        if self.spend(f.cost + 5) { format!("{}({})", g.name, self.args_for(f.arity, 1)) } else { "[1, 2]".to_string() }
+                    }
+                    1 => format!("[{}, {}]", self.prim(1), self.prim(1)),
+                    2 => "(function* () { try { yield 'in1'; yield 'in2'; } catch (e) { print('inner caught', show(e)); return 'recovered'; } finally { print('inner finally'); } return 'inner-normal'; })()".to_string(),
+                    _ => "(function* () { while (true) { try { yield 'loop'; return 'loop-done'; } catch (e) { print('inner loop caught', show(e)); } } })()".to_string(),
+                };
+                out.push_str(&format!("const {y} = yield* {target};\nprint('yield* result', show({y}));\n"));
+                self.declare(&y, Kind::Const, Ty::Any);
+                self.label("yield-star");
+            }
         }
         if self.t.chance(200) {
             let e = self.any(2);
@@ -1240,7 +1266,7 @@ impl<'a> Gen<'a> {
         let g = self.fresh("g");
         let args = self.args_for(arity, 1);
         self.label("generator-use");
-        match self.t.below(6) {
+        match self.t.below(8) {
             0 => {
                 out.push_str(&format!("for (const {g} of {name}({args})) {{ print('item', show({g})); }}\n"));
             }
@@ -1254,6 +1280,14 @@ impl<'a> Gen<'a> {
             3 => {
                 out.push_str(&format!("const {g} = {name}({args});\nprint(show({g}.next()));\ntry {{ print(show({g}.throw(new RangeError('t')))); }} catch (e) {{ print('caught', show(e)); }}\nprint(show({g}.next()));\n"));
                 self.label("generator-throw");
+            }
+            6 => {
+                out.push_str(&format!("const {g} = {name}({args});\nprint(show({g}.next()));\ntry {{ print(show({g}.throw('t1'))); print(show({g}.next('n2'))); print(show({g}.throw('t2'))); }} catch (e) {{ print('caught', show(e)); }}\nprint(show({g}.next()));\n"));
+                self.label("generator-throw");
+            }
+            7 => {
+                out.push_str(&format!("const {g} = {name}({args});\nprint(show({g}.next()));\nprint(show({g}.next('a')));\ntry {{ print(show({g}.return('r1'))); }} catch (e) {{ print('caught', show(e)); }}\nprint(show({g}.next()));\n"));
+                self.label("generator-return");
             }
             4 => {
                 let a = self.fresh("d");
@@ -1507,8 +1541,21 @@ impl<'a> Gen<'a> {
         let shadow = nums.first().map(|v| v.name.clone()).unwrap_or_else(|| "a".into());
         let e = self.num(1);
         out.push_str(&format!("with ({{ {shadow}: {e}, a: 1 }}) {{\nprint(show({shadow}), a);\n"));
+        if self.t.chance(120) {
+            // nested with that does not shadow: the outer object must win again afterwards
+            out.push_str("with ({ inner: 1 }) {\nprint(inner);\n");
+            self.block(out, 2);
+            out.push_str("}\n");
+            self.label("nested-with");
+        }
         self.block(out, 2);
+        if shadow != "a" {
+            out.push_str(&format!("print(show({shadow}));\n{shadow} = {shadow} + 1;\nprint(typeof {shadow}, show({shadow}));\n"));
+        }
         out.push_str("}\n");
+        if shadow != "a" {
+            out.push_str(&format!("print(show({shadow}));\n"));
+        }
     }
 
     fn stmt_deadcode(&mut self, out: &mut String) {
@@ -1594,6 +1641,38 @@ impl<'a> Gen<'a> {
         }
     }
 
+    fn stmt_iterable(&mut self, out: &mut String) {
+        if !self.spend(40) {
+            return self.stmt_print(out);
+        }
+        self.kinds.insert("iterable");
+        self.label("custom-iterable");
+        let tag = self.fresh("it");
+        let n = self.t.below(4);
+        let wr = if self.t.chance(200) { "true" } else { "false" };
+        let a = self.fresh("d");
+        let b = self.fresh("d");
+        match self.t.below(9) {
+            0 => out.push_str(&format!("for (const {a} of mkIt('{tag}', {n}, {wr})) {{ print('body', {a}); if ({a} === '{tag}1') break; }}\n")),
+            1 => out.push_str(&format!("try {{ for (const {a} of mkIt('{tag}', {n}, {wr})) {{ print('body', {a}); if ({a} === '{tag}0') throw 'thrown in body'; }} }} catch (e) {{ print('caught', show(e)); }}\n")),
+            2 => {
+                out.push_str(&format!("const [{a}, {b} = 'dflt'] = mkIt('{tag}', {n}, {wr});\nprint(show({a}), show({b}));\n"));
+                self.declare(&a, Kind::Const, Ty::Any);
+                self.declare(&b, Kind::Const, Ty::Any);
+            }
+            3 => out.push_str(&format!("print(show([...mkIt('{tag}', {n}, {wr}), 'tail']));\n")),
+            4 => out.push_str(&format!("print(show((function () {{ return arguments.length; }})(...mkIt('{tag}', {n}, {wr}), 1)));\n")),
+            5 => out.push_str(&format!("{tag}L: for (const {a} of mkIt('{tag}a', {n}, {wr})) {{ for (const {b} of mkIt('{tag}b', 2, {wr})) {{ print('pair', {a}, {b}); if ({b} === '{tag}b0') continue {tag}L; }} }}\n")),
+            6 => {
+                out.push_str(&format!("const [{a}, ...{b}] = mkIt('{tag}', {n}, {wr});\nprint(show({a}), show({b}));\n"));
+                self.declare(&a, Kind::Const, Ty::Any);
+                self.declare(&b, Kind::Const, Ty::Arr);
+            }
+            7 => out.push_str(&format!("(function () {{ for (const {a} of mkIt('{tag}', {n}, {wr})) {{ try {{ if ({a}) return 'ret'; }} finally {{ print('finally in loop'); }} }} }})();\n")),
+            _ => out.push_str(&format!("try {{ const [{a}] = {{ [Symbol.iterator]() {{ print('{tag} broken'); return {{ next() {{ print('{tag} next'); return 5; }} }}; }} }}; print(show({a})); }} catch (e) {{ print(show(e)); }}\n")),
+        }
+    }
+
     fn stmt_return_or_throw(&mut self, out: &mut String) {
         if self.flevel == 0 || self.depth == 0 {
             return self.stmt_print(out);
@@ -1633,9 +1712,10 @@ impl<'a> Gen<'a> {
             o.w_literal,         // literal-heavy expr
             o.w_collections,     // Map/Set/array methods
             4,                   // return/throw
+            o.w_destructure,     // custom iterables (iterator protocol, closing)
         ];
         let mut choice = self.t.weighted(&weights);
-        if self.in_finally > 0 && self.o.excl_f17_catch_in_finally && matches!(choice, 6 | 9 | 11 | 16 | 7 | 8) {
+        if self.in_finally > 0 && self.o.excl_f17_catch_in_finally && matches!(choice, 6 | 9 | 11 | 16 | 7 | 8 | 19) {
             // F17: an exception caught inside a finally block corrupts the pending completion
             // (templates 6/9/11/16 contain try/catch; 7/8 call functions right away, and a callee
             // that throws would be caught by an enclosing catch of this function)
@@ -1661,6 +1741,7 @@ impl<'a> Gen<'a> {
             15 => self.stmt_deadcode(out),
             16 => self.stmt_literal_expr(out),
             17 => self.stmt_collections(out),
+            19 => self.stmt_iterable(out),
             _ => self.stmt_return_or_throw(out),
         }
     }
